@@ -6,6 +6,7 @@ import (
 	"bufio"
 	"encoding/json"
 	"fmt"
+	"math"
 	"math/rand"
 	"os"
 	"os/exec"
@@ -25,7 +26,7 @@ import (
 // value tokens -> concrete maps (negative keys, fractional and large values, empty map)
 var c14Data = map[string]map[int]float64{
 	"v1": {0: 0, 128: 1500, 255: 3000},
-	"v2": {-5: 12.5, 1000: 1e9, 7: 0.001, 42: 1234.5678},
+	"v2": {-5: 12.5, 1000: 1e9, 7: 0.001, 42: 1234.5678, 43: 1e300, 44: -4.9e-324, 45: 9007199254740992},
 	"v3": {},
 	"vf": func() map[int]float64 {
 		m := map[int]float64{}
@@ -37,7 +38,7 @@ var c14Data = map[string]map[int]float64{
 }
 var c14Maps = map[string]map[int]int{
 	"v1": {0: 0, 64: 128, 255: 255},
-	"v2": {-3: 7, 300: -1, 17: 100000},
+	"v2": {-3: 7, 300: -1, 17: 100000, 98: 9007199254740993, 99: math.MaxInt64, -99: math.MinInt64}, // (integers are stored as integers: exact beyond 2^53)
 	"v3": {},
 }
 
